@@ -16,7 +16,7 @@ RULE = ('Hypothesis-generated include graphs over <=6 files in a fresh directory
         '{{TOC}}, over-long (>1000 bytes) or unterminated; edges in any direction (trees, DAGs with sharing, self loops, cycles). Oracle: '
         '(1) always: the call returns within the CPU budget with bounded output; (2) when no file is reached through itself (acyclic by '
         'real path): result == reference expansion written from the documentation; (3) manifest: no duplicates, exactly the existing '
-        'files visited (missing targets optional). Non-trivial: >=3 files and sharing, a cycle, or a transclude-base override below the '
+        'files visited (missing targets optional). Files may carry YAML-fenced metadata and CRLF line endings; zero-byte files exist; the manifest is asked twice on one DString / engine (same list, text unchanged); the CLI leg includes the batch route with a bare file name from inside its folder. Non-trivial: >=3 files and sharing, a cycle, or a transclude-base override below the '
         'top level; distinct by file map + format.')
 ASSUMPTIONS = ['paths are composed textually and resolved by the file system (never normalised lexically); `transclude base` names existing directories',
                'markers never name a directory; source_path always contains a directory part',
